@@ -611,7 +611,7 @@ func runC02(c *Ctx) {
 	c.Import(runC13, "R13.2", "", "R02.9", "E1", "client watch adapter: a re-Watch after a stream failure happens only once a bookmark was recorded — otherwise the new stream would start at the server's current position and silently skip the events in between", 1)
 
 	// ---------- R02.10 (shared with C13 R13.1)
-	c.Rule("R02.10", "E3", "a re-established remote watch carries every field of the initial request (API version included — the server only sends the terminal Errored event to API version >= 1): a resumed stream still fails loudly on overrun", 6)
+	c.Rule("R02.10", "E3", "a re-established remote watch carries every field of the initial request (API version included — the server only sends the terminal Errored event to API version >= 1): a resumed stream still fails loudly on overrun", 4)
 	resumeRequestRule(c, "R02.10")
 
 }
